@@ -282,6 +282,14 @@ class Verifier:
                            c.clause_prop.get(('raises', name), c.properties))
                 lam = c.raises_msg.get(name)
                 if lam is not None:
+                    if not exc.args:
+                        # raises_msg promises callers an exception WITH a
+                        # message (they may read e.args[0])
+                        eng.oblige(st, z3.BoolVal(False),
+                                   '%s::raises_msg:%s' % (fn.qual, name),
+                                   'post', '%s raised at line %d without '
+                                   'arguments' % (exc.cls, exc.line),
+                                   exc.line, c.properties)
                     if exc.args and isinstance(exc.args[0], VStr):
                         msg = exc.args[0]
                     else:
